@@ -542,8 +542,26 @@ bool Importer::ImporterImpl::fetchComponent(const ComponentPtr &importComponent,
             }
         }
 
-        // Fetch any units needed by this component.
-        for (const auto &unitName : unitsNamesUsed(sourceComponent)) {
+        // Fetch any units needed by this component and by the components
+        // encapsulated inside it (an imported one gets its units from its own
+        // source model).
+        NameList unitNames;
+        std::vector<ComponentPtr> componentsToVisit = {sourceComponent};
+        while (!componentsToVisit.empty()) {
+            auto currentComponent = componentsToVisit.back();
+            componentsToVisit.pop_back();
+            if ((currentComponent == sourceComponent) || !currentComponent->isImport()) {
+                for (const auto &unitName : unitsNamesUsed(currentComponent)) {
+                    if (std::find(unitNames.begin(), unitNames.end(), unitName) == unitNames.end()) {
+                        unitNames.push_back(unitName);
+                    }
+                }
+                for (size_t c = 0; c < currentComponent->componentCount(); ++c) {
+                    componentsToVisit.push_back(currentComponent->component(c));
+                }
+            }
+        }
+        for (const auto &unitName : unitNames) {
             auto units = sourceModel->units(unitName);
             if (units == nullptr) {
                 auto issue = Issue::IssueImpl::create();
